@@ -145,6 +145,18 @@ Theorem C12_mixed_adv_error : forall hd sp ip ap inf inp r,
 Proof. exact c12_mixed_adv_error. Qed.
 Print Assumptions C12_mixed_adv_error.
 
+(* the same in terms of the Create predicates of Props/C12Full.v (C12_create_adv: an ADV batch passes Create
+   iff it holds at most 9998 entries; C12_valid / C12_create_iat: when a standard / IAT batch passes): for ANY
+   list of consolidated batches, if among the batches handed to AddToFile an ADV batch passes its Create and a
+   standard batch passes its Create (or an IAT batch its build + isCategory), the whole function returns
+   File.Create's error *)
+Theorem C12_mixed_adv_created : forall hd sp ip ap inf all x y,
+  In x (pre all) -> created_a GTT hd ap x ->
+  In y (pre all) -> (created GA GT hd sp y \/ (b_kind y = KIAT /\ create_iat GTT hd ip y <> None)) ->
+  fst (finish GA GT GTT hd sp ip ap inf all) = FErrCreate.
+Proof. exact c12_mixed_adv_created. Qed.
+Print Assumptions C12_mixed_adv_created.
+
 (* non-vacuity: the ADV file of C12_succeeds_adv_example followed by the standard file of
    C12_succeeds_example — each is flattened without error, together one ADV and one standard batch
    survive AddToFile and the whole function returns File.Create's error *)
